@@ -15,7 +15,7 @@ EXPLANATION = (
     "in the assembled stream; R-SLOT compares the slots operand for operand with the grammar row of the opcode (kinds mapped through "
     "the parser's own kind->variant table, quantifiers, parameter order); R-NAME ties method names and docs to opcodes; R-VER "
     "evaluates set_version/version. Value equality for all argument values is not computed.")
-EXHAUSTIVE = True
+EXHAUSTIVE = False     # the abstract inputs are a stated finite scope, not the whole input space
 
 GENERIC_PARAMS = {"result_type", "result_id", "insert_point"}
 
